@@ -158,11 +158,11 @@ def run_record_arrays(ctx, quick):
             Rec("RaPadB", [("f", P("float32")), ("d", P("float64")), ("t", P("bool"))]), Rec("RaPadC", [("c", P("complexfloat64")), ("i", P("int8")), ("f", P("float32"))]),
             Rec("RaOuter", [("p", N("RaPadA")), ("q", P("uint8"))]), Rec("RaGen", [("k", TP("K")), ("v", TP("V"))], ("K", "V")),
             # fields whose numpy representation differs from their Python one: optionals ((has_value, value) records), enums (integers), nested records
-            Rec("RaOpt", [("b", P("uint8")), ("o", Opt(P("bool"))), ("i", Opt(P("int32"))), ("f", Opt(P("float64")))]),
+            Rec("RaOpt", [("b", P("uint8")), ("o", Opt(P("bool"))), ("i", Opt(P("int32"))), ("f", Opt(P("float64")))]), Rec("RaOptBool", [("b", P("uint8")), ("o", Opt(P("bool")))]),
             En("RaEnum", [("lo", 0), ("hi", 200)], "uint8"), Rec("RaWithEnum", [("e", N("RaEnum")), ("w", P("float32"))]),
             Rec("RaDeep", [("inner", N("RaOpt")), ("maybe", Opt(N("RaTight"))), ("n", P("int64"))])]
     items = [N("RaTight"), N("RaPadA"), N("RaPadB"), N("RaPadC"), N("RaOuter"), N("RaGen", (P("uint8"), P("float64"))), N("RaGen", (P("float32"), P("float32"))),
-             N("RaOpt"), N("RaWithEnum"), N("RaDeep")]
+             N("RaOpt"), N("RaWithEnum"), N("RaDeep"), N("RaOptBool")]
     protos = []
     for i, it in enumerate(items):
         protos.append(Proto("Ra%d" % i, [("dyn", A(it, None)), ("ranked", A(it, 2)), ("fixed", A(it, ((None, 2), (None, 3)))), ("vec", V(it)), ("fvec", V(it, 2)),
